@@ -56,7 +56,7 @@ Failing(ev) ==
      \o (IF ev.reader_ok THEN <<>> ELSE <<"coll_reader">>)
 
 RECURSIVE KindsStr(_)
-KindsStr(ds) == IF ds = <<>> THEN "" ELSE ds[1].kind \o (IF ds[1].roid = "RO1" THEN "" ELSE "@" \o ds[1].roid)
+KindsStr(ds) == IF ds = <<>> THEN "" ELSE ds[1].kind \o (IF ds[1].roid = "RO1" THEN "" ELSE "@other")
                                             \o (IF Len(ds) > 1 THEN "," ELSE "") \o KindsStr(Tail(ds))
 CollSig(ev) == "[" \o KindsStr(SortByMid(ev.docs)) \o "]/allow=" \o ToString(ev.allow)
                \o "/strict=" \o ToString(ev.strict) \o "/" \o ev.flags
